@@ -186,6 +186,9 @@ fn dispatch(cmd: &str, a: &[&str]) -> Result<Vec<String>, String> {
                 "JSON::parse_as_properties" => format!("{:?}", crate::json::object::JSON::parse_as_properties(text).is_ok()),
                 "JSONProperty::parse" => format!("{:?}", crate::json::property::JSONProperty::parse(&text).is_ok()),
                 "Base64::decode" => format!("{:?}", crate::core::base64::Base64::decode(text).is_ok()),
+                "Base64::decode_sequence" => format!("{:?}", crate::core::base64::Base64::decode_sequence(text).is_ok()),
+                "Base64::convert_base64_char_to_number" => format!("{:?}", crate::core::base64::Base64::convert_base64_char_to_number(text.chars().next().unwrap_or('A')).is_ok()),
+                "Base64::convert_number_to_base64_char" => format!("{:?}", crate::core::base64::Base64::convert_number_to_base64_char(*raw.get(0).unwrap_or(&0)).is_ok()),
                 "Header::parse_header" => format!("{:?}", Header::parse_header(&text).is_ok()),
                 "ContentDisposition::parse" => format!("{:?}", crate::header::content_disposition::ContentDisposition::parse(&text).is_ok()),
                 "Range::_parse_raw_content_range_header_value" => format!("{:?}", crate::range::Range::_parse_raw_content_range_header_value(&text).is_ok()),
